@@ -138,6 +138,7 @@ def gen(rng, tier):
                         p[ax] = float(ft(p[ax] + (box if rng.random() < 0.8 or p[ax] < 0 else -box)))
     return {'shape': shape, 'box': box, 'dtype': dtype, 'nthread': nthread, 'npartition': npartition,
             'layout': rng.choice(['C', 'C', 'C', 'cols-view', 'fortran', 'strided', 'readonly']),
+            'failed_call_before': rng.random() < 0.15,
             'coord': coord, 'sort': rng.random() < 0.3, 'offset': offset, 'wrap': wrap,
             'pos': pos, 'weights': weights, 'sched': gen_sched(rng), 'poison': rng.choice(['A', 'B'])}
 
@@ -227,8 +228,15 @@ def run(case):
         violation(out, 'raises:' + type(exc).__name__, 'tsc_parallel(nthread=1,npartition=1)', repr(exc)[:300])
         return out
     # ---- the configuration under test
-    res, exc, summ = H.run(lambda: _call(tsc, case, pos, weights, case['nthread'], case['npartition']), s,
-                           poison=case['poison'])
+    def under_test():
+        if case.get('failed_call_before'):
+            # history: a call that is rejected (stripes far too fine) with another thread count, then the valid call
+            try:
+                _call(tsc, case, pos, weights, min(16, case['nthread'] + 3), max(2, case['shape'][case['coord']]))
+            except ValueError:
+                pass
+        return _call(tsc, case, pos, weights, case['nthread'], case['npartition'])
+    res, exc, summ = H.run(under_test, s, poison=case['poison'])
     cfg = [case['shape'][case['coord']], case['nthread'], case['npartition']]
     if isinstance(exc, ValueError) and 'npartition' in str(exc):
         if not case['npartition']:
